@@ -42,7 +42,9 @@ theorem follow_flag (n : Nat) (ex b fd : Bool) :
   followLinks_table n ex b fd
 
 /-- **(ii)** the implicit MATCHBASE / rglob part is `***` (follows links) iff
-    GLOBSTARLONG ∧ FOLLOW — the one place FOLLOW still counts under GLOBSTARLONG. -/
+    GLOBSTARLONG ∧ FOLLOW — the one place FOLLOW still counts under GLOBSTARLONG.  (It is put in
+    front only of a pattern that does not itself begin with a globstar — the RGLOBSTAR repair,
+    `C05.split_adjacent_globstar` — the pattern's own `**` / `***` then decides.) -/
 theorem matchbase_prefix (c : SplitCfg) :
     (basePart c).isGlobstarLong = (c.flags.globstarlong && c.flags.follow) := (basePart_long c).1
 
@@ -63,8 +65,11 @@ theorem link_not_entered (w : WalkCfg) (fs : FS) (absPat : Bool) (m : Matcher) (
     (every piece; the last is exempt when the group reaches the end of the path) — and the rule
     is switched off exactly by FOLLOW ∧ ¬GLOBSTARLONG (`C04.follow_flag`).  Which pieces a group
     captured is `Re.runCap`'s first match (validated against `re`, not proved): the statement
-    is about `_fs_match`'s loop, for whatever the group holds.  Known defect of that loop with
-    several groups: KF-G3 (wrong base for the second group), witness in `Properties/C04.lean`. -/
+    is about `_fs_match`'s loop, for whatever the group holds.  The loop runs it for EVERY group
+    under the path in front of that group (`C04cap.real_link_rule_all`; the former defect with
+    several groups, G3 — wrong base for the second group — is repaired, `C04.G3_fixed_witness`),
+    and "reaches the end" includes the very end of a path written without trailing separator
+    (D7 repaired, `C04.D7_fixed_witness`). -/
 theorem real_link_rule (fs : FS) (atEnd : Bool) (parts : List Name) (j last : Nat) (base : List Char)
     (h : (fsPieces fs atEnd parts j last base).2 = true) (k : Nat) (hk : k < parts.length)
     (hc : (!atEnd || j + k != last) = true) :
